@@ -276,7 +276,9 @@ def wPathsForKey (m : Val) (key : Str) : List Str := (hasKeyPath key [] m).erase
 /-- values reached by `ValuesForPath` with no sub-key arguments on a bracket-free path -/
 theorem valuesForPath_plain (m : Val) (path : Str) (h1 : path.contains '[' = false) :
     valuesForPath [':'] (fun _ => none) m path [] = .ok (walk none m (pathKeys path)) := by
-  simp [valuesForPath, h1, subKeyArg, oldValues]
+  unfold valuesForPath
+  rw [h1]
+  simp [subKeyArg, oldValues]
 
 theorem dropTrailingEmpty_of_last (ks : List Str) (h : ks.getLast? ≠ some []) :
     dropTrailingEmpty ks = ks := by
